@@ -10,6 +10,7 @@ From Flocq Require Import Core.Raux.
 From QV Require Import Rt.Prelude Rt.Amount Rt.Quantity Gen.Prefixes Gen.Kernels Amount.DecModel Amount.Dec.
 From QV Require Amount.Laws.
 From QV Require Import Amount.DecAcc Proofs.Laws Proofs.Kernel Proofs.C09 Proofs.Derived.
+From QV Require Proofs.C14.
 Import Amount.Laws.
 Local Open Scope R_scope.
 
@@ -308,3 +309,19 @@ Proof.
     rewrite Rabs_mult. apply Rmult_le_compat_r; [apply Rabs_pos|exact Bx].
 Qed.
 End DerivedDec.
+
+(** * C14 (decimal): a table conversion is amount * factor + offset, one rounding (the sum is exact) *)
+Theorem dec_affine_value (S : QBase DEC) (LS : QLaws S) (q : Qt S) (to : nat) (k c : dec) (z : Qt S) :
+  In to (u_iter S) -> dec_ok (q_amount S q) -> dec_ok k -> dec_ok c ->
+  Proofs.C14.affine S q to (k, c) = Ok (Some z) ->
+  q_unit S z = to /\ Rabs (dval (q_amount S z) - (dval (q_amount S q) * dval k + dval c)) <= h18 /\
+  ((d_nfd (q_amount S q) + d_nfd k <= 18)%Z -> dval (q_amount S z) = dval (q_amount S q) * dval k + dval c).
+Proof.
+  intros Hin Ha Hk Hc. unfold Proofs.C14.affine. cbn [fst snd a_mul a_add DEC].
+  destruct (dec_mul (q_amount S q) k) as [m|] eqn:Em; cbn [bind]; [|discriminate].
+  destruct (dec_add m c) as [s|] eqn:Es; cbn [bind]; [|discriminate]. intros [= <-].
+  destruct (dec_mul_acc _ _ _ Ha Hk Em) as (Hm & Bm & Xm). destruct (dec_add_exact _ _ _ Hm Hc Es) as [_ Ev].
+  split; [apply (law_unit_new S LS); exact Hin|]. rewrite (law_amount_new S LS), Ev. split.
+  - replace (dval m + dval c - (dval (q_amount S q) * dval k + dval c)) with (dval m - dval (q_amount S q) * dval k) by ring. exact Bm.
+  - intros H. rewrite (Xm H). reflexivity.
+Qed.
